@@ -24,6 +24,7 @@
 #include "options_for_QT.h"
 #include "punctuators.h"
 #include "token_is_within_trailing_return.h"
+#include "verif_hooks.h"
 
 #ifdef WIN32
 #include <algorithm>                   // to get max
@@ -3510,7 +3511,15 @@ const char *decode_IARF(iarf_e av)
 
 static iarf_e do_space_ensured(Chunk *first, Chunk *second, int &min_sp)
 {
+#ifdef UNCRUSTIFY_VERIF
+   iarf_e av_raw = do_space(first, second, min_sp);
+   iarf_e av     = ensure_force_space(first, second, av_raw);
+
+   verif_note_space(first, second, (int)av_raw, (int)av, min_sp);
+   return(av);
+#else
    return(ensure_force_space(first, second, do_space(first, second, min_sp)));
+#endif
 }
 
 
@@ -3696,7 +3705,13 @@ void space_text()
          int min_sp;
          LOG_FMT(LSPACE, "%s(%d): orig line is %zu, orig col is %zu, pc-Text() '%s', type is %s\n",
                  __func__, __LINE__, pc->GetOrigLine(), pc->GetOrigCol(), pc->Text(), get_token_name(pc->GetType()));
+#ifdef UNCRUSTIFY_VERIF
+         verif_space_in_space_text = true;
+#endif
          iarf_e av = do_space_ensured(pc, next, min_sp);
+#ifdef UNCRUSTIFY_VERIF
+         verif_space_in_space_text = false;
+#endif
          min_sp = max(1, min_sp);
 
          switch (av)
